@@ -109,6 +109,23 @@ func payloadIds(b transport.Batch) string {
 	return "[" + strings.Join(ids, ",") + "]"
 }
 
+// kinesisKeys renders the partition key of every Kinesis record of the batch (C06)
+func kinesisKeys(b transport.Batch) string {
+	p, ok := b.GetPayload().([]*awskinesis.PutRecordsRequestEntry)
+	if !ok {
+		return ""
+	}
+	ks := []string{}
+	for _, r := range p {
+		if r.PartitionKey == nil {
+			ks = append(ks, "nil")
+		} else {
+			ks = append(ks, hexs(*r.PartitionKey))
+		}
+	}
+	return ":[" + strings.Join(ks, ",") + "]"
+}
+
 func mkJson(id, size int) []byte {
 	if size < 8 {
 		size = 8
@@ -275,7 +292,7 @@ func (e *bEnv) collect(stop <-chan bool, alsoPark bool) ([]bEvent, string) {
 			}
 			b := v.Interface().(transport.Batch)
 			evs = append(evs, bEvent{
-				text: fmt.Sprintf("dispatch:%d:%s:%s:%s:%d", i-base, hexs(b.GetPartitionKey()), payloadIds(b), showTxns(b.GetTransactions()), b.GetPayloadByteSize()),
+				text: fmt.Sprintf("dispatch:%d:%s:%s:%s:%d%s", i-base, hexs(b.GetPartitionKey()), payloadIds(b), showTxns(b.GetTransactions()), b.GetPayloadByteSize(), kinesisKeys(b)),
 				pkey: b.GetPartitionKey(), isFlush: true})
 		}
 	}
